@@ -20,7 +20,7 @@ RULE = ("Hypothesis-generated histories (<=15 ops) over A<-B<-C with parameters 
         "identical default object), in-place mutation of values, instance- and class-level Parameter attribute edits "
         "(bounds, doc, objects append/assign; a subclass that has its own Parameter object must not reach its ancestors), Composite sets at every level, temporary update() contexts, bare reads creating per-instance copies; oracle = ownership model for values "
         "+ frame conditions for metadata after every op. Non-trivial = an instance is created between two class-level "
-        "changes, or an in-place mutation / metadata edit follows the creation of a second instance; distinct = case hash. Round-4 additions: Selectors whose objects are held in a deque / a UserDict, the instantiate flag of a class Parameter raised after instances exist (later instances get private copies), shared_parameters() blocks left normally or through an exception.")
+        "changes, or an in-place mutation / metadata edit follows the creation of a second instance; distinct = case hash. Round-4 additions: Selectors whose objects are held in a deque / a UserDict, the instantiate flag of a class Parameter raised after instances exist (later instances get private copies), shared_parameters() blocks left normally or through an exception. Round 5: a class assigned the very value it inherits.")
 ASSUMPTIONS = [
     "whether an instance follows later class-level *metadata* changes is not claimed (depends on the lazy copy)",
     "per_instance=False parameters are exempt from the metadata frame conditions",
